@@ -103,7 +103,13 @@ Proof. destruct s; reflexivity. Qed.
 
 Ltac st_simpl :=
   unfold set_stk, set_ctxv, set_top_in, set_inner, set_fdepth, set_sdepth, set_reg, set_vars, set_locs, emit, push, scope in *;
-  simpl in *.
+  cbn [stk ctxv top_in inner fdepth sdepth reg vars locs out printed] in *.
+
+Lemma state_ext a b :
+  stk a = stk b -> ctxv a = ctxv b -> top_in a = top_in b -> inner a = inner b -> fdepth a = fdepth b ->
+  sdepth a = sdepth b -> reg a = reg b -> vars a = vars b -> locs a = locs b -> out a = out b ->
+  printed a = printed b -> a = b.
+Proof. destruct a, b; simpl; intros; subst; reflexivity. Qed.
 
 Lemma set_stk_same' s :
   mkSt (stk s) (ctxv s) (top_in s) (inner s) (fdepth s) (sdepth s) (reg s) (vars s) (locs s) (out s) (printed s) = s.
@@ -124,18 +130,21 @@ Section Sim.
   Lemma lambda_sim c popped s :
     core_ok_list true (c_body c) = true -> m_lambda_body mrec c popped s = r_lambda rrec c popped s.
   Proof.
-    intro Hc. destruct s as [st cv ti inn fd sd rg vs lc ou pr].
+    intro Hc.
     unfold m_lambda_body, r_lambda, with_stack, with_locals, with_function, with_context, with_scope, with_registered, bracket.
-    unfold m_stacks_push, m_inputs_push, m_ctx_push, m_fstack_push. st_simpl.
+    match goal with |- xbind (mrec true _ ?A) _ = _ => set (S0 := A) end.
+    match goal with |- context [rrec (c_body c) ?B] => replace B with S0 by (apply state_ext; reflexivity) end.
     rewrite (Hrec true _ _ Hc).
-    match goal with |- context [rrec (c_body c) ?S0] =>
-      pose proof (Hfr (c_body c) S0) as K; destruct (rrec (c_body c) S0) as [s1| |] end; simpl; try reflexivity.
+    pose proof (Hfr (c_body c) S0) as K. destruct (rrec (c_body c) S0) as [s1| |]; simpl; try reflexivity.
     destruct (pop1 s1) as [s2 r] eqn:E. apply pop1_frames in E. simpl.
     pose proof (frames_trans _ _ _ K E) as F. clear K E.
-    destruct F as (F1 & F2 & F3 & F4). destruct s2 as [st2 cv2 ti2 inn2 fd2 sd2 rg2 vs2 lc2 ou2 pr2].
-    simpl in F1, F2, F3, F4. subst cv2 fd2 sd2.
-    destruct inn2 as [|[l c2] r2]; [contradiction|]. destruct F4 as [_ <-].
-    st_simpl. reflexivity.
+    destruct F as (F1 & F2 & F3 & F4). subst S0. simpl in F1, F2, F3, F4.
+    destruct (inner s2) as [|[l c2] r2] eqn:EI; [contradiction|]. destruct F4 as [_ F4]. subst r2.
+    unfold m_ctx_pop. rewrite F1. simpl.
+    unfold m_inputs_pop. simpl. rewrite EI. simpl.
+    unfold m_stacks_pop. simpl. rewrite F3. simpl.
+    unfold m_fstack_pop. simpl. rewrite F2. simpl.
+    repeat f_equal; try (apply state_ext; reflexivity).
   Qed.
 
   (* ---- named functions ------------------------------------------------------------------------------------------ *)
@@ -155,16 +164,17 @@ Section Sim.
   Proof.
     intro Hc. unfold m_named_body, r_named, bind_all. rewrite m_params_eq.
     destruct (r_params (c_params c) s) as [[s1 ps] loc]. simpl.
-    destruct s1 as [st cv ti inn fd sd rg vs lc ou pr].
     unfold with_stack, with_locals, with_context, with_scope, with_registered, bracket.
-    unfold m_stacks_push, m_inputs_push, m_ctx_push. st_simpl.
+    match goal with |- xbind (mrec true _ ?A) _ = _ => set (S0 := A) end.
+    match goal with |- context [rrec (c_body c) ?B] => replace B with S0 by (apply state_ext; reflexivity) end.
     rewrite (Hrec true _ _ Hc).
-    match goal with |- context [rrec (c_body c) ?S0] =>
-      pose proof (Hfr (c_body c) S0) as K; destruct (rrec (c_body c) S0) as [s2| |] end; simpl; try reflexivity.
-    destruct K as (F1 & F2 & F3 & F4). destruct s2 as [st2 cv2 ti2 inn2 fd2 sd2 rg2 vs2 lc2 ou2 pr2].
-    simpl in F1, F2, F3, F4. subst cv2 fd2 sd2.
-    destruct inn2 as [|[l c2] r2]; [contradiction|]. destruct F4 as [_ <-].
-    st_simpl. reflexivity.
+    pose proof (Hfr (c_body c) S0) as K. destruct (rrec (c_body c) S0) as [s2| |]; simpl; try reflexivity.
+    destruct K as (F1 & F2 & F3 & F4). subst S0. simpl in F1, F2, F3, F4.
+    destruct (inner s2) as [|[l c2] r2] eqn:EI; [contradiction|]. destruct F4 as [_ F4]. subst r2.
+    unfold m_ctx_pop. rewrite F1. simpl.
+    unfold m_inputs_pop. simpl. rewrite EI. simpl.
+    unfold m_stacks_pop. simpl. rewrite F3. simpl.
+    repeat f_equal; try (apply state_ext; reflexivity).
   Qed.
 
   (* ---- the two call protocols -------------------------------------------------------------------------------------- *)
